@@ -27,45 +27,63 @@ import core
 import lexer
 
 LEVEL = "proof"
-EXTRA_TARGETS = ["model/C07Tie.vo"]
+EXTRA_TARGETS = ["model/C07Tie.vo", "model/C07Spec.vo"]
 
 KITTY_CHUNKED = {"api": "old", "style": "kitty", "frames": 3, "size": "fixed", "width": 8, "noise": True, "px": [80, 80],
                  "style_args": {"method": "whole"}}
+KITTY_CHUNKED_Q = dict(KITTY_CHUNKED, width=6, px=[60, 60])
 
-# (name, scenario, in quick tier)
+# (name, scenario, sweep of the quick tier: "deep" | "light" | None = thorough only)
 SCENARIOS = [
-    ("old/block/still", {"api": "old", "style": "block", "frames": 1, "size": "fixed", "width": 4}, True),
-    ("old/block/anim3", {"api": "old", "style": "block", "frames": 3, "size": "dynamic", "size_enum": "ORIGINAL", "seek": 1}, True),
-    ("old/kitty/anim3/chunked", KITTY_CHUNKED, True),
-    ("old/kitty/still/lines", {"api": "old", "style": "kitty", "frames": 1, "size": "dynamic", "size_enum": "ORIGINAL"}, True),
-    ("old/iterm2/still", {"api": "old", "style": "iterm2", "frames": 1, "size": "fixed", "width": 4}, True),
-    ("old/iterm2/anim3", {"api": "old", "style": "iterm2", "frames": 3, "size": "dynamic", "size_enum": "ORIGINAL", "seek": 2}, True),
-    ("new/text/still", {"api": "new", "style": "text", "frames": 1, "hide_cursor": True, "echo_input": False}, True),
-    ("new/text/anim3", {"api": "new", "style": "text", "frames": 3, "hide_cursor": True, "echo_input": False}, True),
-    # thorough only
-    ("old/block/still/dynamic", {"api": "old", "style": "block", "frames": 1, "size": "dynamic", "size_enum": "ORIGINAL"}, False),
-    ("old/block/anim3/fixed", {"api": "old", "style": "block", "frames": 3, "size": "fixed", "width": 4}, False),
-    ("old/block/frame-of-anim", {"api": "old", "style": "block", "frames": 3, "animate": False, "seek": 2, "size": "fixed", "width": 4}, False),
-    ("old/kitty/still/chunked", dict(KITTY_CHUNKED, frames=1), False),
-    ("old/kitty/anim3/lines", {"api": "old", "style": "kitty", "frames": 3, "size": "dynamic", "size_enum": "ORIGINAL", "seek": 1}, False),
-    ("old/kitty/anim3/konsole", dict(KITTY_CHUNKED, term="konsole", kitty_version=[]), False),
-    ("old/iterm2/still/whole", {"api": "old", "style": "iterm2", "frames": 1, "size": "fixed", "width": 4,
-                                "style_args": {"method": "whole"}}, False),
-    ("old/iterm2/anim3/konsole", {"api": "old", "style": "iterm2", "frames": 3, "size": "fixed", "width": 4, "term": "konsole"}, False),
-    ("old/iterm2/anim3/padded", {"api": "old", "style": "iterm2", "frames": 3, "size": "fixed", "width": 4, "pad_width": 8,
-                                 "pad_height": 4}, False),
-    ("new/text/still/echo", {"api": "new", "style": "text", "frames": 1, "hide_cursor": True, "echo_input": True}, False),
-    ("new/text/still/nohide", {"api": "new", "style": "text", "frames": 1, "hide_cursor": False, "echo_input": False}, False),
-    ("new/text/still/nohide/echo", {"api": "new", "style": "text", "frames": 1, "hide_cursor": False, "echo_input": True}, False),
-    ("new/text/anim3/echo", {"api": "new", "style": "text", "frames": 3, "hide_cursor": True, "echo_input": True}, False),
-    ("new/text/anim3/nohide", {"api": "new", "style": "text", "frames": 3, "hide_cursor": False, "echo_input": False}, False),
-    ("new/text/anim3/nohide/echo", {"api": "new", "style": "text", "frames": 3, "hide_cursor": False, "echo_input": True}, False),
+    ("old/block/still", {"api": "old", "style": "block", "frames": 1, "size": "fixed", "width": 4}, "deep"),
+    ("old/block/anim3", {"api": "old", "style": "block", "frames": 3, "size": "dynamic", "size_enum": "ORIGINAL", "seek": 1}, "deep"),
+    ("old/kitty/anim3/chunked", KITTY_CHUNKED_Q, "deep"),
+    ("old/kitty/still/lines", {"api": "old", "style": "kitty", "frames": 1, "size": "dynamic", "size_enum": "ORIGINAL"}, "light"),
+    ("old/iterm2/still", {"api": "old", "style": "iterm2", "frames": 1, "size": "fixed", "width": 4}, "deep"),
+    ("old/iterm2/anim3", {"api": "old", "style": "iterm2", "frames": 3, "size": "dynamic", "size_enum": "ORIGINAL", "seek": 2}, "light"),
+    ("old/block/anim3/cached/repeat2", {"api": "old", "style": "block", "frames": 3, "size": "fixed", "width": 4, "cached": True,
+                                        "loops": 2, "alpha": "#"}, "light"),
+    ("old/kitty/still/chunked", dict(KITTY_CHUNKED_Q, frames=1, size="dynamic", size_enum="AUTO"), "light"),
+    ("old/iterm2/anim3/konsole", {"api": "old", "style": "iterm2", "frames": 3, "size": "fixed", "width": 4, "term": "konsole",
+                                  "cached": 2, "seek": 1}, "light"),
+    ("old/block/frame-of-anim", {"api": "old", "style": "block", "frames": 3, "animate": False, "seek": 2, "size": "dynamic",
+                                 "size_enum": "FIT", "alpha": 0.5}, "light"),
+    ("new/text/still", {"api": "new", "style": "text", "frames": 1, "hide_cursor": True, "echo_input": False}, "deep"),
+    ("new/text/anim3", {"api": "new", "style": "text", "frames": 3, "hide_cursor": True, "echo_input": False}, "deep"),
+    ("new/text/still/nohide/echo", {"api": "new", "style": "text", "frames": 1, "hide_cursor": False, "echo_input": True}, "light"),
+    ("new/text/anim3/nohide/echo/loops2/cache", {"api": "new", "style": "text", "frames": 3, "hide_cursor": False, "echo_input": True,
+                                                 "loops": 2, "cache": True}, "light"),
     ("new/text/anim3/padded", {"api": "new", "style": "text", "frames": 3, "hide_cursor": True, "echo_input": False,
-                               "pad": [2, 1, 1, 1]}, False),
-    ("new/text/frame-of-anim", {"api": "new", "style": "text", "frames": 3, "animate": False, "seek": 1, "hide_cursor": True}, False),
-    ("new/text/anim3/loops2/cache", {"api": "new", "style": "text", "frames": 3, "loops": 2, "cache": True, "hide_cursor": True}, False),
+                               "pad": [2, 1, 1, 1], "seek": 1}, "light"),
+    ("new/text/frame-of-anim", {"api": "new", "style": "text", "frames": 3, "animate": False, "seek": 1, "hide_cursor": True,
+                                "echo_input": True}, "light"),
+    ("new/text/indefinite2", {"api": "new", "style": "text", "indefinite": 2, "hide_cursor": True, "echo_input": False}, "light"),
+    # thorough only
+    ("old/block/still/dynamic", {"api": "old", "style": "block", "frames": 1, "size": "dynamic", "size_enum": "ORIGINAL"}, None),
+    ("old/block/anim3/fixed", {"api": "old", "style": "block", "frames": 3, "size": "fixed", "width": 4}, None),
+    ("old/block/anim3/padded/fit-to-width", {"api": "old", "style": "block", "frames": 3, "size": "dynamic", "size_enum": "FIT_TO_WIDTH",
+                                             "px": [8, 2], "pad_width": 80, "pad_height": 6, "h_align": "<", "v_align": "^"}, None),
+    ("old/kitty/anim3/chunked/4-chunks", KITTY_CHUNKED, None),
+    ("old/kitty/anim3/lines", {"api": "old", "style": "kitty", "frames": 3, "size": "dynamic", "size_enum": "ORIGINAL", "seek": 1}, None),
+    ("old/kitty/anim3/konsole", dict(KITTY_CHUNKED_Q, term="konsole", kitty_version=[]), None),
+    ("old/kitty/still/uncompressed", {"api": "old", "style": "kitty", "frames": 1, "size": "fixed", "width": 4,
+                                      "style_args": {"method": "whole", "compress": 0, "z_index": 5, "mix": True}}, None),
+    ("old/iterm2/still/whole", {"api": "old", "style": "iterm2", "frames": 1, "size": "fixed", "width": 4,
+                                "style_args": {"method": "whole"}}, None),
+    ("old/iterm2/still/wezterm", {"api": "old", "style": "iterm2", "frames": 1, "size": "fixed", "width": 4, "term": "wezterm"}, None),
+    ("old/iterm2/anim3/padded", {"api": "old", "style": "iterm2", "frames": 3, "size": "fixed", "width": 4, "pad_width": 8,
+                                 "pad_height": 4}, None),
+    ("new/text/still/echo", {"api": "new", "style": "text", "frames": 1, "hide_cursor": True, "echo_input": True}, None),
+    ("new/text/still/nohide", {"api": "new", "style": "text", "frames": 1, "hide_cursor": False, "echo_input": False}, None),
+    ("new/text/anim3/echo", {"api": "new", "style": "text", "frames": 3, "hide_cursor": True, "echo_input": True}, None),
+    ("new/text/anim3/nohide", {"api": "new", "style": "text", "frames": 3, "hide_cursor": False, "echo_input": False}, None),
+    ("new/text/anim3/loops2/cache", {"api": "new", "style": "text", "frames": 3, "loops": 2, "cache": True, "hide_cursor": True}, None),
+    ("new/text/indefinite0", {"api": "new", "style": "text", "indefinite": 0, "hide_cursor": True, "echo_input": True}, None),
+    ("new/text/indefinite3/nohide", {"api": "new", "style": "text", "indefinite": 3, "hide_cursor": False}, None),
+    ("new/text/anim1", {"api": "new", "style": "text", "frames": 2, "loops": 1, "hide_cursor": True, "size_wh": [5, 1]}, None),
 ]
 SCN = {n: s for n, s, _ in SCENARIOS}
+MODE = {n: m for n, _, m in SCENARIOS}
 
 C_OUT, C_FLUSH, C_RENDER, C_SLEEP = 8, 9, 10, 11
 CLS_NAME = {8: "write", 9: "flush", 10: "render", 11: "sleep", 12: "handler", 13: "finalize", 0: "tcgetattr", 1: "tcsetattr"}
@@ -77,29 +95,44 @@ _ESC_SEQ = re.compile(r"\x1b(?:\[[0-?]*[ -/]*[@-~]|[_\]][^\x1b\x07]*(?:\x1b\\|\x
 
 
 def is_anim(scn):
-    return scn.get("frames", 1) > 1 and scn.get("animate", True)
+    return (scn.get("frames", 1) > 1 or scn.get("indefinite") is not None) and scn.get("animate", True)
 
 
-def j_sweep(s, rng, quick):
-    """cut positions for a write of text s"""
+def n_frames(scn):
+    return scn["indefinite"] if scn.get("indefinite") is not None else scn["frames"] * scn.get("loops", 1)
+
+
+def j_sweep(s, rng, mode):
+    """cut positions for a write of text s; mode: "full" (thorough) | "deep" | "light" (quick)"""
     n = len(s)
     if n == 0:
         return [0]
     js = {0, n}
     spans = [m.span() for m in _ESC_SEQ.finditer(s)]
-    if not quick and n <= 600:
+    if mode == "full" and n <= 600:
         return list(range(n + 1))
-    picks = spans[:1] + spans[-1:] if quick else spans
+    if mode == "light":
+        picks, cap = spans[:1], 2
+    elif mode == "deep":
+        picks, cap = spans[:1] + spans[-1:], 14
+    else:
+        picks, cap = spans, 136
     for a, b in picks:
         inner = list(range(a + 1, b))
-        if quick and len(inner) > 16:
-            inner = inner[:9] + inner[-5:]
-        elif len(inner) > 140:
-            inner = inner[:64] + inner[-64:] + [rng.randrange(a + 1, b) for _ in range(8)]
+        if len(inner) > cap:
+            if mode == "light":
+                inner = [inner[0], inner[len(inner) // 2]]
+            elif mode == "deep":
+                inner = inner[:9] + inner[-5:]
+            else:
+                inner = inner[:64] + inner[-64:] + [rng.randrange(a + 1, b) for _ in range(8)]
         js.update(inner)
         js.add(a)
         js.add(b)
-    for _ in range(3 if quick else 60):
+    for a, b in spans:  # every graphics-protocol string: inside its control data, its payload, its terminator
+        if s[a + 1] in "_]" and b - a > 8:
+            js.update((a + 1, a + 4, (a + b) // 2, b - 1))
+    for _ in range({"light": 1, "deep": 3, "full": 60}[mode]):
         js.add(rng.randrange(n + 1))
     return sorted(js)
 
@@ -121,13 +154,11 @@ def frames_of(scn, base):
     ws = [t for _, t in nonempty_writes(base["calls"])]
     if scn["api"] == "old":
         if is_anim(scn):
-            n = scn["frames"] * scn.get("loops", 1)
-            return [ws[1 + 3 * i] for i in range(n)]
+            return [ws[1 + 3 * i] for i in range(n_frames(scn))]
         return [ws[1]]
     h0 = 1 if scn.get("hide_cursor", True) else 0
     if is_anim(scn):
-        n = scn["frames"] * scn.get("loops", 1)
-        return [ws[h0 + 2 * i] for i in range(n)]
+        return [ws[h0 + 2 * i] for i in range(n_frames(scn))]
     return [ws[h0]]
 
 
@@ -150,6 +181,21 @@ def coords(case, res):
             return (0, 0, None, False)
         return (len(before) - 1, len(lexer.lex(before[-1][1])), None, True)
     return (len(before), 0, None, False)
+
+
+def scope_end(scn, base):
+    """Index of the first faultable call of the fault-free run that belongs to draw()'s own
+    clean-up (used to cross-check the skeleton's verdict, and instead of it when the
+    translator refuses the source)."""
+    calls = base["calls"]
+    last = lambda classes: max(i for i, c in enumerate(calls) if c[0] in classes)  # noqa: E731
+    if scn["api"] == "old":
+        # still: ... render, print(frame, flush) | SGR0 SHOW LF;  animation: ... final next() | CUD, SGR0 SHOW LF
+        return last((C_FLUSH, C_RENDER, C_SLEEP)) + 1
+    if is_anim(scn):
+        # ... final next(), sleep | cursor down, flush, LF, SHOW, flush
+        return last((C_RENDER, C_SLEEP)) + 1
+    return last((C_RENDER,)) + 3  # the render, the write of its output, its flush | LF, SHOW, flush
 
 
 def b(x):
@@ -229,7 +275,7 @@ def run(ctx):
         rc = ctx.replay["replay"]["case"]
         names = [rc["name"]]
     else:
-        names = [n for n, _, q in SCENARIOS if q or not quick]
+        names = [n for n, _, m in SCENARIOS if m or not quick]
     # ---- fault-free runs
     base_cases = [{"name": n, "scn": SCN[n], "fault": None} for n in names]
     base_res = core.run_impl_parallel("impl_c07.py", base_cases)
@@ -256,14 +302,19 @@ def run(ctx):
             cls, text = call[0], call[1]
             for kind in ("KI", "Exc"):
                 if cls == C_OUT:
-                    for j in j_sweep(text, rng, quick):
+                    for j in j_sweep(text, rng, MODE[c["name"]] if quick else "full"):
                         cases.append({"name": c["name"], "scn": c["scn"], "fault": {"k": k, "kind": kind, "j": j}})
                 else:
                     for after in (False, True):
                         cases.append({"name": c["name"], "scn": c["scn"], "fault": {"k": k, "kind": kind, "j": None, "after": after}})
     if ctx.replay and names[0] in sidx:
         cases.append({"name": rc["name"], "scn": SCN[rc["name"]], "fault": rc["fault"]})
-    results = core.run_impl_parallel("impl_c07.py", cases)
+    # stripe the cases over the workers (the expensive scenarios are contiguous)
+    perm = [i for r in range(core.NCPU) for i in range(r, len(cases), core.NCPU)]
+    striped = core.run_impl_parallel("impl_c07.py", [cases[i] for i in perm])
+    results = [None] * len(cases)
+    for i, r in zip(perm, striped):
+        results[i] = r
 
     # ---- encode
     keys, key_idx, owner = [], {}, []
@@ -289,19 +340,31 @@ def run(ctx):
             keys.append(term)
         owner.append(key_idx[term])
     header = ("From Coq Require Import List ZArith Bool Arith.\nImport ListNotations.\n"
-              "From TI Require Import lib.Term lib.Eff model.SkelTie model.DrawInt model.C07Tie.\nOpen Scope Z_scope.\n"
+              "From TI Require Import lib.Term lib.Eff model.SkelTie model.DrawInt model.C07Spec @TIE@.\nOpen Scope Z_scope.\n"
               + "".join(defs))
     codes = {}
-    tie, gen = core.COQ / "model" / "C07Tie.vo", core.COQ / "gen" / "Skeletons.v"
+    tie, spec, gen = core.COQ / "model" / "C07Tie.vo", core.COQ / "model" / "C07Spec.vo", core.COQ / "gen" / "Skeletons.v"
+    # never judge against a stale comparison module (its build fails when the translator refuses the source)
     coq_ok = tie.exists() and gen.exists() and tie.stat().st_mtime >= gen.stat().st_mtime
-    if not coq_ok:
-        errors.append("model/C07Tie.vo is missing or older than gen/Skeletons.v: the observations were not judged")
-    elif keys:
-        bad, errs = core.coq_shards("c07", header, keys, "tcase", "bad cases", shard=max(40, (len(keys) + 4 * core.NCPU - 1) // (4 * core.NCPU)))
+    spec_ok = spec.exists()
+    shard = max(30, (len(keys) + core.NCPU - 1) // core.NCPU)
+    if coq_ok and keys:
+        bad, errs = core.coq_shards("c07", header.replace("@TIE@", "model.C07Tie"), keys, "tcase", "bad cases", shard=shard)
         if errs:
             coq_ok = False
             errors += [e[-900:] for e in errs[:3]]
         codes = {i: (v // 100, v % 100) for i, v in bad}
+    spec_codes = None
+    if not coq_ok:
+        errors.append("model/C07Tie.vo is missing or older than gen/Skeletons.v (the translator refused the source or the build "
+                      "failed): the call traces were not judged against the skeleton; scope decided by position")
+        if spec_ok and keys:
+            vals, errs = core.coq_shards("c07s", header.replace("@TIE@", ""), keys, "tcase", "spec_only cases", shard=shard)
+            if errs:
+                errors += [e[-900:] for e in errs[:3]]
+            else:
+                spec_codes = {i: (v // 100, v % 100) for i, v in vals}
+    ends = {c["name"]: scope_end(c["scn"], r) for c, r in zip(base_cases, base_res) if c["name"] in sidx}
 
     distinct = set()
     in_scope_fault_runs = 0
@@ -309,7 +372,17 @@ def run(ctx):
         if o is None:
             continue
         f = c.get("fault") if r.get("injected") else None
-        code, bits = codes.get(o, (0, 0)) if coq_ok else (99, 0)  # 99: not judged
+        inscope = (not f) or f["k"] < ends[c["name"]]
+        if coq_ok:
+            code, bits = codes.get(o, (0, 0))
+            if code in (0, 2, 4, 10) and (code != 10) != inscope:
+                mismatches.append({"case": describe(c["name"], c, r), "why": "the skeleton places the fault "
+                                   + ("inside" if code == 10 else "outside") + " draw()'s clean-up, its position says otherwise"})
+        elif spec_codes is not None:
+            differs, bits = spec_codes.get(o, (0, 0))
+            code = 10 if not inscope else (2 if bits else (4 if differs else 0))
+        else:
+            code, bits = 99, 0  # not judged
         hist["scenario"][c["name"]] = hist["scenario"].get(c["name"], 0) + 1
         fk = "none" if not f else f["kind"]
         hist["fault_kind"][fk] = hist["fault_kind"].get(fk, 0) + 1
@@ -334,7 +407,8 @@ def run(ctx):
         if code in (2, 3) or (not f and bits):
             failures.append({
                 "signature": core.sig({"scenario": c["name"], "fault": f}),
-                "what": "interrupted draw() leaves an obligation open: " + describe(c["name"], c, r, bits),
+                "what": "interrupted draw() leaves an obligation open: " + describe(c["name"], c, r, bits)
+                        + ("" if coq_ok else " [scope decided by position: the translated skeleton is unavailable]"),
                 "replay": {"case": {"name": c["name"], "scn": c["scn"], "fault": f}, "bits": bits, "code": code,
                            "observed": {k: r.get(k) for k in ("out", "exc", "termios_same", "finalized", "size", "seek", "hit")},
                            "stream": "".join(t for t, _ in r["segs"])[-400:]},
@@ -374,7 +448,7 @@ def run(ctx):
                 "(every stream write() incl. the empty sep/end strings of print(), flush(), sleep, frame render / next frame; "
                 "clean-up included) raises KeyboardInterrupt or an Exception (OSError for the stream, RuntimeError otherwise): "
                 "non-write calls before / after their effect; writes after delivering j characters, j in {0, len} + "
-                + ("every position inside the first and the last escape sequence of the text (long sequences: first 9 / last 5) + 3 random"
+                + ("every position inside the first and the last escape sequence of the text (long sequences: first 9 / last 5), 4 positions inside every APC / OSC string (after ESC, in the control data, mid-payload, inside the terminator) + 3 random"
                    if quick else "every position (texts over 600 characters: 64 leading / trailing positions of every escape sequence + "
                    "68 random)")
                 + ".  Non-trivial: distinct observations (stream, trace, outcome) with a fault that the skeleton places outside "
